@@ -1,7 +1,7 @@
 (* C10 — Nesting, '*' grouping and '@' combination equal sequential application.
    Only statements, each closed by [exact], followed by Print Assumptions. *)
 From Coq Require Import List ZArith QArith.
-From EPG Require Import Scalar QI State Ops Views Diff Combine CombineProofs.
+From EPG Require Import Scalar QI State Ops Views Diff DiffExact Combine CombineProofs CombineD.
 Import ListNotations.
 
 (* (1) a sequence gives the same state whether written flat, as arbitrarily nested lists, or grouped
@@ -31,6 +31,22 @@ Theorem C10_combine_apply_states (S : ScalOps) (L : ScalLaws S) (l1 l2 lc : lin 
   combine_lin l1 l2 = Some lc -> shaped S s n -> apply_lin lc s = apply_lin l2 (apply_lin l1 s).
 Proof. exact (combine_apply_states S L l1 l2 lc s n). Qed.
 Print Assumptions C10_combine_apply_states.
+
+(* (4) first-order partials of '@'.  combined_ok states what _combine builds (the combined arrays, the
+   derivative arrays cd for every key, the merged order1); it is evaluated in Coq on the implementation's
+   combined operators by the correspondence (combined_okb).  When both operands declare their parameters
+   under their own names with unit coefficients and carry derivative arrays only for declared parameters,
+   the combined operator yields, for every state and every previously carried partials, the state AND the
+   first-order partials of the operands applied in order. *)
+Theorem C10_combine_order1 (S : ScalOps) (L : ScalLaws S) (o1 o2 oc : dop S) (ds : dstate S) (n : nat) :
+  combined_ok S o1 o2 oc -> no_alias S o1 -> no_alias S o2 -> darrs_active S o1 -> entries_keys S o2 ->
+  darrs_ok S o1 -> darrs_ok S o2 ->
+  shaped S (d_main ds) n -> (forall v, opshaped S n (alookup Nat.eqb v (d_p1 ds))) ->
+  d_main (dapply oc ds) = d_main (dapply o2 (dapply o1 ds)) /\
+  forall v k, oget S (alookup Nat.eqb v (d_p1 (dapply oc ds))) k =
+              oget S (alookup Nat.eqb v (d_p1 (dapply o2 (dapply o1 ds)))) k.
+Proof. exact (combine_order1 S L o1 o2 oc ds n). Qed.
+Print Assumptions C10_combine_order1.
 
 (* non-vacuity: '@' accepts a scalar and a matrix operand on the executed instance *)
 Example C10_nonvacuous :
